@@ -495,7 +495,12 @@ func genCase(t *rapid.T) Case {
 	c.Kind = kind
 	switch kind {
 	case "cnf":
-		switch rapid.IntRange(0, 2).Draw(t, "family") {
+		switch rapid.IntRange(0, 3).Draw(t, "family") {
+		case 3: // binary-clause cliques: what -cp rewrites into cardinality constraints before solving
+			c.N = gen.Uniform(t, 3, 10, "n")
+			c.Clauses, _ = gen.CliqueRich(t, c.N)
+			c.Flags = append([]string{}, rapid.SampledFrom([][]string{{"-cp"}, {"-cp"}, {"-cp", "-verbose"}, {}, {"-count"}, {"-mus"}}).Draw(t, "cliqueFlags")...)
+			return c
 		case 0:
 			c.N, c.Clauses = gen.SmallCNF(t, gen.CNFOpts{MinN: 1, MaxN: 10, MaxRatio: 4, MaxLen: 4, AllowEmpty: true, AllowDup: true, AllowUnit: true, UnusedVarSlack: true})
 		case 1:
@@ -575,7 +580,7 @@ func TestMain(m *testing.M) {
 func init() {
 	vf.Register(vf.Sub[Case]{Name: "cli", Quick: 700, Thorough: 6000, Gen: genCase, Check: check, Floor: 0.5,
 		Classes: map[string]float64{"kind-cnf": 0.05, "kind-opb": 0.05, "kind-wcnf": 0.05, "kind-bf": 0.05, "flag-count": 0.05, "flag-certified": 0.03, "flag-mus": 0.03, "flag-cp": 0.05, "flag-verbose": 0.05},
-		Rule:    "the executable is built from the tree and run on generated .cnf (odd clause shapes, 3-SAT, pigeonhole), .opb (with/without objective of either sign), .wcnf and .bf files (conventional layout, n<=10) x flag sets {none, -verbose, -cp, -count, -verbose -count, -cp -verbose, -certified, -certified -verbose, -mus} (-certified is not combined with -cp: a RUP certificate cannot express the PB constraints that strategy learns, and the property lists the flags separately), plus unreadable paths, an unknown suffix and syntactically broken files; stdout is parsed: exactly one status line, the v line is a total model of the file, 's UNSATISFIABLE' only for unsatisfiable files, o lines strictly decreasing and ending in the brute-force optimum attained by the printed model, -count prints exactly the model count, the -certified lines replay as a RUP refutation, the -mus DIMACS block is a minimal unsatisfiable sub-multiset of the file; -verbose only adds comment lines; bad files: exit status != 0 and no answer line; non-trivial = file with >=2 constraints (or formula of size >=4, count >=2, an extracted MUS, a bad file)"})
+		Rule:    "the executable is built from the tree and run on generated .cnf (odd clause shapes, 3-SAT, pigeonhole, clique-rich formulas mostly run with -cp), .opb (with/without objective of either sign), .wcnf and .bf files (conventional layout, n<=10) x flag sets {none, -verbose, -cp, -count, -verbose -count, -cp -verbose, -certified, -certified -verbose, -mus} (-certified is not combined with -cp: a RUP certificate cannot express the PB constraints that strategy learns, and the property lists the flags separately), plus unreadable paths, an unknown suffix and syntactically broken files; stdout is parsed: exactly one status line, the v line is a total model of the file, 's UNSATISFIABLE' only for unsatisfiable files, o lines strictly decreasing and ending in the brute-force optimum attained by the printed model, -count prints exactly the model count, the -certified lines replay as a RUP refutation, the -mus DIMACS block is a minimal unsatisfiable sub-multiset of the file; -verbose only adds comment lines; bad files: exit status != 0 and no answer line; non-trivial = file with >=2 constraints (or formula of size >=4, count >=2, an extracted MUS, a bad file)"})
 }
 
 func TestCorpus(t *testing.T) { vf.Corpus(t) }
